@@ -139,6 +139,12 @@ class MiniExec:
         if k == 'ContinueStmt':
             return 'continue'
         if k == 'ReturnStmt':
+            self.retval = None
+            if s.get('c') and s['c'][0] is not None:
+                try:
+                    self.retval = self.val(s['c'][0], env)
+                except F.AnalysisBroken:
+                    self.retval = None
             return 'return'
         if k == 'DeclStmt':
             for d in s['decls']:
